@@ -32,6 +32,7 @@ type Spec struct {
 	Files   []FileSpec `json:"files,omitempty"`
 	Minute  int64      `json:"minute"` // minutes since 2000-01-01 00:00 UTC
 	Type    string     `json:"type,omitempty"`
+	Tuned   string     `json:"tuned,omitempty"` // information: the compressed-size boundary the content was padded to
 }
 
 var epoch = time.Date(2000, 1, 1, 0, 0, 0, 0, time.UTC)
@@ -230,7 +231,84 @@ func Gen(t *rapid.T, used map[string]bool, from string, to string, big int) Spec
 		name = strings.ReplaceAll(name, "/", "_")
 		s.Files = append(s.Files, FileSpec{Name: name, Data: data})
 	}
+	// size boundaries of the transfer: the sender cuts the compressed message into blocks of 125 bytes (other
+	// implementations use up to 256), the LZHUF reader pulls its input in 4096 byte fills. In a fifth of the
+	// messages the content is padded (deterministically, the result is part of the Spec) until the LZHUF
+	// compressed size sits exactly on such a boundary.
+	if k := rapid.IntRange(0, 14).Draw(t, "size_boundary"); k < 3 {
+		tgt := [][2]int{{125, 0}, {125, 1}, {125, 124}}[rapid.IntRange(0, 2).Draw(t, "boundary_kind")]
+		if k == 0 {
+			tgt = [][2]int{{256, 0}, {250, 0}, {4096, 6}, {4096, 5}}[rapid.IntRange(0, 3).Draw(t, "boundary_kind2")]
+		}
+		if tgt[0] <= big || big >= 1000 {
+			s.Tune(tgt[0], tgt[1])
+		}
+	}
 	return s
+}
+
+// CompressedSize is the LZHUF-compressed size of the message as the library proposes it (0 on error).
+func (s Spec) CompressedSize() int {
+	m, err := s.Build()
+	if err != nil {
+		return 0
+	}
+	p, err := m.Proposal(fbb.Wl2kProposal)
+	if err != nil {
+		return 0
+	}
+	return p.CompressedSize()
+}
+
+// Tune pads the body with incompressible printable bytes until CompressedSize() % mod == res (best effort:
+// a few compress-and-adjust rounds; each padding byte adds about one compressed byte). Deterministic.
+func (s *Spec) Tune(mod, res int) bool {
+	x := uint64(len(s.MID))*0x9E3779B97F4A7C15 + uint64(mod)*31 + uint64(res)
+	for _, c := range []byte(s.MID) {
+		x = x*1099511628211 + uint64(c)
+	}
+	next := func() byte {
+		x ^= x << 13
+		x ^= x >> 7
+		x ^= x << 17
+		return byte('!' + x%94) // printable ASCII without space: valid in a text body and in raw bytes
+	}
+	for round := 0; round < 60; round++ {
+		c := s.CompressedSize()
+		if c == 0 {
+			return false
+		}
+		d := ((res-c)%mod + mod) % mod
+		if d == 0 {
+			s.Tuned = fmt.Sprintf("csize%%%d==%d", mod, res)
+			return true
+		}
+		n := d * 9 / 10
+		if n < 1 {
+			n = 1
+		}
+		pad := make([]byte, n)
+		for i := range pad {
+			pad[i] = next()
+		}
+		if s.RawBody != nil {
+			s.RawBody = append(s.RawBody, pad...)
+		} else {
+			// keep text lines short (SetBody wraps at 1000 bytes, which would add CRLFs)
+			if len(s.Body) > 0 && !strings.HasSuffix(s.Body, "\n") {
+				s.Body += "\n"
+			}
+			for len(pad) > 0 {
+				k := minInt(len(pad), 70)
+				s.Body += string(pad[:k])
+				pad = pad[k:]
+				if len(pad) > 0 {
+					s.Body += "\n"
+				}
+			}
+		}
+	}
+	return false
 }
 
 func minInt(a, b int) int {
